@@ -330,6 +330,7 @@ void runHandles(const Plan& p)
 		K<H>::read(tmp2);
 	}
 	g_ctor = g_dtor = g_live = g_badDestroy = g_badRead = 0;
+	sim::enableDestructionRaceOracle(true); // "no access races with its destruction", memory orders honoured
 	size_t heap0 = sim::heapLive();
 	{
 		std::vector<Worker<H>> w((size_t)T);
